@@ -478,10 +478,8 @@ Proof. apply Qle_bool_imp_le; vm_compute; reflexivity. Qed.
 Definition tol_cp2k : Q := 2 # 1000000.
 Lemma units_cp2k_kb : within tol_cp2k (kb_cp2k * si_Eh) si_k.
 Proof. qbound. Qed.
-Lemma units_cp2k_kb_not_1e6 : ~ within tol6 (kb_cp2k * si_Eh) si_k.
-Proof.
-  unfold within. intros H. apply Qle_bool_iff in H. vm_compute in H. discriminate.
-Qed.
+(* (the literal in cp2k.py is 1.2e-6 away from the 2019 SI value, hence tol_cp2k = 2e-6; no
+   lower bound on the error is claimed, so that correcting the literal re-opens nothing) *)
 Lemma units_cp2k_mass : within tol6 (massfac_cp2k * si_me) si_mu.
 Proof. qbound. Qed.
 
@@ -509,4 +507,243 @@ Proof.
   unfold within. rewrite E2.
   apply (scaled_within (kT * (z * z)) (c / (scale_lammps * scale_lammps)) tol6 Hx).
   exact units_lammps_ratio.
+Qed.
+
+(* ------------------------------------------------------------------ the whole operation: variance *)
+Lemma Forall2_map_self {A B} (P : B -> A -> Prop) (f : A -> B) l :
+  Forall (fun a => P (f a) a) l -> Forall2 P (map f l) l.
+Proof. induction 1; cbn; constructor; auto. Qed.
+
+Lemma variance_col_plain beta kT sig mass :
+  Forall2 (fun s m => s * s * m * beta == 1) sig mass -> beta * kT == 1 ->
+  forall z, length z = length sig ->
+  Forall2 Qeq (map2 (fun m v => m * (v * v) * 1) mass (draw_col sig z))
+              (map (fun x => kT * (x * x)) z).
+Proof.
+  intros HF Hb. induction HF as [|s m sig mass Hsm _ IH]; intros [|x z] Hl; cbn in Hl; try discriminate.
+  - constructor.
+  - cbn. constructor.
+    + rewrite Qmult_1_r. apply (draw_variance_comp s m beta kT x Hsm Hb).
+    + apply IH. lia.
+Qed.
+
+Lemma variance_col_scaled beta kT sc sig mass :
+  ~ sc == 0 ->
+  Forall2 (fun s m => s * s * m * beta == 1) sig mass -> beta * kT == 1 ->
+  forall z, length z = length sig ->
+  Forall2 Qeq (map2 (fun m v => m * (v * v) * (sc * sc)) mass (unscale_col sc (draw_col sig z)))
+              (map (fun x => kT * (x * x)) z).
+Proof.
+  intros Hsc HF Hb. induction HF as [|s m sig mass Hsm _ IH]; intros [|x z] Hl; cbn in Hl; try discriminate.
+  - constructor.
+  - cbn. constructor.
+    + apply (scaled_variance_comp s m beta kT x sc Hsc Hsm Hb).
+    + apply IH. lia.
+Qed.
+
+Lemma modify_std_variance e kbu temp mass src ek zm sig z :
+  use_zm e zm = false -> ~ temp * kb_engine e kbu == 0 ->
+  Forall2 (fun s m => s * s * m * beta_of (kb_engine e kbu) temp == 1) sig mass ->
+  Forall (fun zc => length zc = length sig) z ->
+  Forall2 (fun vc zc =>
+             Forall2 Qeq (map2 (fun m v => m * (v * v) * vunit2 e) mass vc)
+                         (map (fun x => kb_engine e kbu * temp * (x * x)) zc))
+          (f_vel (r_frame (modify_std e mass src ek zm sig z))) z.
+Proof.
+  intros Hz Hn HF Hl. unfold modify_std. rewrite Hz. cbn [r_frame f_vel].
+  pose proof (beta_of_inv (kb_engine e kbu) temp Hn) as Hb.
+  unfold vunit2. destruct (vscale e) as [s|] eqn:Es.
+  - assert (Hs : ~ s == 0).
+    { destruct e; cbn in Es; try discriminate. inversion Es; subst. exact scale_lammps_nonzero. }
+    rewrite map_map. apply Forall2_map_self. rewrite Forall_forall in *. intros zc Hin.
+    apply (variance_col_scaled _ _ s sig mass Hs HF Hb). auto.
+  - apply Forall2_map_self. rewrite Forall_forall in *. intros zc Hin.
+    apply (variance_col_plain _ _ sig mass HF Hb). auto.
+Qed.
+
+Lemma variance_col_ase kT sigp mass :
+  Forall2 (fun sp m => sp * sp == m * kT /\ ~ m == 0) sigp mass ->
+  forall z, length z = length sigp ->
+  Forall2 Qeq (map2 (fun m v => m * (v * v)) mass (map2 Qdiv (map2 Qmult z sigp) mass))
+              (map (fun x => kT * (x * x)) z).
+Proof.
+  intros HF. induction HF as [|sp m sigp mass [Hsm Hm] _ IH]; intros [|x z] Hl; cbn in Hl; try discriminate.
+  - constructor.
+  - cbn. constructor.
+    + apply (ase_variance_comp sp m kT x Hm Hsm).
+    + apply IH. lia.
+Qed.
+
+Lemma modify_ase_variance fx kT mass src zm sigp z :
+  use_zm Ase zm = false ->
+  Forall2 (fun sp m => sp * sp == m * kT /\ ~ m == 0) sigp mass ->
+  Forall (fun zc => length zc = length sigp) z ->
+  Forall2 (fun vc zc =>
+             Forall2 Qeq (map2 (fun m v => m * (v * v)) mass vc) (map (fun x => kT * (x * x)) zc))
+          (f_vel (r_frame (modify_ase fx mass src zm sigp z))) z.
+Proof.
+  intros Hz HF Hl. unfold modify_ase. rewrite Hz. cbn [r_frame f_vel].
+  rewrite map_map. apply Forall2_map_self. rewrite Forall_forall in *. intros zc Hin.
+  apply (variance_col_ase kT sigp mass HF). auto.
+Qed.
+
+(* ------------------------------------------------------------------ the temperature in SI units *)
+(* A is a kinetic term m v^2 in the engine's energy unit, Eunit that unit in joule *)
+Lemma si_temperature kb Eunit tol A T z :
+  A == kb * T * (z * z) -> within tol (kb * Eunit) si_k -> 0 <= T ->
+  within tol (A * Eunit) (si_k * T * (z * z)).
+Proof.
+  intros E W HT. unfold within in *.
+  assert (X : 0 <= T * (z * z)) by (apply Qmult_le_0_compat; [exact HT|apply Qsq_nonneg]).
+  assert (E1 : A * Eunit - si_k * T * (z * z) == (kb * Eunit - si_k) * (T * (z * z))) by (rewrite E; ring).
+  assert (E2 : si_k * T * (z * z) == si_k * (T * (z * z))) by ring.
+  rewrite E1, E2, (Qabs_Qmult (kb * Eunit - si_k)), (Qabs_Qmult si_k), (Qabs_pos _ X), (Qmult_assoc tol).
+  apply Qmult_le_compat_r; assumption.
+Qed.
+
+Lemma temperature_si_gromacs m v T z :
+  m * (v * v) == kb_gromacs * T * (z * z) -> 0 <= T ->
+  within tol6 ((m * gmx_mass) * ((v * gmx_vel) * (v * gmx_vel))) (si_k * T * (z * z)).
+Proof.
+  intros E HT.
+  pose proof (si_temperature kb_gromacs gmx_energy tol6 _ T z E units_gromacs_kb HT) as W.
+  unfold within in *.
+  assert (E1 : (m * gmx_mass) * ((v * gmx_vel) * (v * gmx_vel)) == m * (v * v) * gmx_energy).
+  { rewrite <- units_gromacs_mv2. ring. }
+  rewrite E1. exact W.
+Qed.
+
+Lemma units_lammps_kb_draw : within tol6 (kb_lammps * lmp_draw_energy) si_k.
+Proof. unfold within; apply Qle_bool_imp_le; vm_compute; reflexivity. Qed.
+
+Lemma temperature_si_lammps m v T z :
+  m * (v * v) * (scale_lammps * scale_lammps) == kb_lammps * T * (z * z) -> 0 <= T ->
+  within tol6 ((m * lmp_mass) * ((v * lmp_vel) * (v * lmp_vel))) (si_k * T * (z * z)).
+Proof.
+  intros E HT.
+  pose proof (si_temperature kb_lammps lmp_draw_energy tol6 _ T z E units_lammps_kb_draw HT) as W.
+  unfold within in *.
+  assert (E1 : (m * lmp_mass) * ((v * lmp_vel) * (v * lmp_vel))
+               == m * (v * v) * (scale_lammps * scale_lammps) * lmp_draw_energy).
+  { unfold lmp_draw_energy. field. exact scale_lammps_nonzero. }
+  rewrite E1. exact W.
+Qed.
+
+Lemma si_me_nonzero : ~ si_me == 0.
+Proof. intros H. apply Qeq_bool_iff in H. vm_compute in H. discriminate. Qed.
+Lemma si_mu_nonzero : ~ si_mu == 0.
+Proof. intros H. apply Qeq_bool_iff in H. vm_compute in H. discriminate. Qed.
+
+Lemma temperature_si_cp2k m v T z :
+  m * (v * v) == kb_cp2k * T * (z * z) -> 0 <= T ->
+  within tol_cp2k ((m * cp2k_mass) * (v * v * cp2k_vel2)) (si_k * T * (z * z)).
+Proof.
+  intros E HT.
+  pose proof (si_temperature kb_cp2k si_Eh tol_cp2k _ T z E units_cp2k_kb HT) as W.
+  unfold within in *.
+  assert (E1 : (m * cp2k_mass) * (v * v * cp2k_vel2) == m * (v * v) * si_Eh).
+  { unfold cp2k_mass, cp2k_vel2. field. exact si_me_nonzero. }
+  rewrite E1. exact W.
+Qed.
+
+Lemma temperature_si_ase m v T z :
+  m * (v * v) == ase_lib_kB * T * (z * z) -> 0 <= T ->
+  within tol6 ((m * ase_mass) * (v * v * ase_vel2)) (si_k * T * (z * z)).
+Proof.
+  intros E HT.
+  pose proof (si_temperature ase_lib_kB si_e tol6 _ T z E units_ase_lib_kb HT) as W.
+  unfold within in *.
+  assert (E1 : (m * ase_mass) * (v * v * ase_vel2) == m * (v * v) * si_e).
+  { unfold ase_mass, ase_vel2. field. exact si_mu_nonzero. }
+  rewrite E1. exact W.
+Qed.
+
+(* ------------------------------------------------------------------ kinetic energy reported: (1/2) kT sum z^2 *)
+Lemma sumQ_map_scale {A} (f : A -> Q) k l : sumQ (map (fun a => k * f a) l) == k * sumQ (map f l).
+Proof.
+  induction l as [|a l IH]; cbn [map].
+  - rewrite sumQ_nil. ring.
+  - rewrite !sumQ_cons, IH. ring.
+Qed.
+
+Lemma sumQ_map2_scale (f : Q -> Q -> Q) k : forall a b,
+  sumQ (map2 (fun x y => f x y * k) a b) == sumQ (map2 f a b) * k.
+Proof.
+  induction a as [|x a IH]; intros [|y b]; cbn [map2]; try (rewrite sumQ_nil; ring).
+  rewrite !sumQ_cons, IH. ring.
+Qed.
+
+Lemma kin_col_as_sum : forall c m,
+  kin_col m c == kin_half * sumQ (map2 (fun m v => m * (v * v)) m c).
+Proof.
+  intros c m. unfold kin_col. apply Qmult_comp; [reflexivity|]. apply sumQ_eq.
+  revert m. induction c as [|v c IH]; intros [|x m]; cbn [map2]; try constructor.
+  - ring.
+  - apply IH.
+Qed.
+
+Lemma kin_col_variance u kT mass vc zc :
+  Forall2 Qeq (map2 (fun m v => m * (v * v) * u) mass vc) (map (fun x => kT * (x * x)) zc) ->
+  kin_col mass vc * u == kin_half * kT * sumQ (map (fun x => x * x) zc).
+Proof.
+  intros H. rewrite kin_col_as_sum.
+  transitivity (kin_half * (sumQ (map2 (fun m v => m * (v * v)) mass vc) * u)); [ring|].
+  rewrite <- (sumQ_map2_scale (fun m v => m * (v * v)) u).
+  rewrite (sumQ_eq _ _ H), sumQ_map_scale. ring.
+Qed.
+
+Lemma kinetic_variance u kT mass vs z :
+  Forall2 (fun vc zc => Forall2 Qeq (map2 (fun m v => m * (v * v) * u) mass vc)
+                                    (map (fun x => kT * (x * x)) zc)) vs z ->
+  kinetic mass vs * u == kin_half * kT * sum_sq z.
+Proof.
+  unfold kinetic, sum_sq. induction 1 as [|vc zc vs z H _ IH]; cbn [map].
+  - rewrite !sumQ_nil. ring.
+  - rewrite !sumQ_cons. rewrite Qmult_plus_distr_l, IH, (kin_col_variance u kT mass vc zc H). ring.
+Qed.
+
+Lemma modify_std_equipartition e kbu temp mass src ek zm sig z :
+  use_zm e zm = false -> ~ temp * kb_engine e kbu == 0 ->
+  Forall2 (fun s m => s * s * m * beta_of (kb_engine e kbu) temp == 1) sig mass ->
+  Forall (fun zc => length zc = length sig) z ->
+  r_kin_new (modify_std e mass src ek zm sig z) * vunit2 e
+  == kin_half * (kb_engine e kbu * temp) * sum_sq z.
+Proof.
+  intros Hz Hn HF Hl.
+  destruct (dek_consistent_std e mass src ek zm sig z) as (Hk & _). cbv zeta in Hk. rewrite Hk.
+  apply kinetic_variance. apply modify_std_variance; assumption.
+Qed.
+
+Lemma Forall2_times_one : forall a b r,
+  Forall2 Qeq (map2 (fun m v => m * (v * v)) a b) r ->
+  Forall2 Qeq (map2 (fun m v => m * (v * v) * 1) a b) r.
+Proof.
+  induction a as [|x a IH]; intros [|y b] r H; cbn [map2] in *; try exact H.
+  inversion H as [|? ? ? ? Hxy Hr]; subst. constructor.
+  - rewrite Qmult_1_r. exact Hxy.
+  - apply IH. exact Hr.
+Qed.
+
+Lemma Forall2_weaken {A B} (P R : A -> B -> Prop) :
+  (forall a b, P a b -> R a b) -> forall l l', Forall2 P l l' -> Forall2 R l l'.
+Proof. intros H l l'. induction 1; constructor; auto. Qed.
+
+Lemma modify_ase_equipartition kT mass src zm sigp z :
+  use_zm Ase zm = false ->
+  Forall2 (fun sp m => sp * sp == m * kT /\ ~ m == 0) sigp mass ->
+  Forall (fun zc => length zc = length sigp) z ->
+  r_kin_new (modify_ase true mass src zm sigp z) == (1 # 2) * kT * sum_sq z.
+Proof.
+  intros Hz HF Hl.
+  assert (Hnz : Forall (fun x => ~ x == 0) mass).
+  { clear -HF. induction HF as [|? ? ? ? [_ H] _ IH]; constructor; auto. }
+  assert (Hlen : length sigp = length mass).
+  { clear -HF. induction HF; cbn; auto. }
+  assert (Hl' : Forall (fun zc => length zc = length mass) z).
+  { rewrite Forall_forall in *. intros zc Hin. rewrite (Hl zc Hin). exact Hlen. }
+  destruct (dek_consistent_ase mass src zm sigp z Hnz Hlen Hl') as (Hk & _). cbv zeta in Hk. rewrite Hk.
+  rewrite <- kin_half_val, <- (Qmult_1_r (kinetic _ _)).
+  apply kinetic_variance.
+  pose proof (modify_ase_variance true kT mass src zm sigp z Hz HF Hl) as V.
+  revert V. apply Forall2_weaken. intros vc zc H. apply Forall2_times_one. exact H.
 Qed.
